@@ -266,7 +266,8 @@ def rule_R04_4(ctx):
         nfp = pushers[0]
         pushes = [c for c in nfp.calls() if (c.res or "").endswith("::push")]
         arcs = [c for c in nfp.calls() if (c.declared or "") == "std::sync::Arc::<T>::new"]
-        clones = [c for c in nfp.calls() if (c.declared or "") == "std::clone::Clone::clone"]
+        clones = [c for c in nfp.calls() if (c.declared or "") == "std::clone::Clone::clone"
+                  or (c.res or c.declared or "").split("::")[-1] in ("cloned", "to_vec", "extend_from_slice")]
         r.inst("new_from_push: %d push, %d Arc::new, %d clone" % (len(pushes), len(arcs), len(clones)))
         rets = [b for b in nfp.reachable() if nfp.term(b)["k"] == "return"]
         uncond = bool(pushes) and all(nfp.dominates(pushes[0].bb, b) for b in rets)
